@@ -1946,6 +1946,12 @@ func (in *inliner) emitSite0(s *inlSite) (rope, bool) {
 			return nil, false
 		}
 		nres := sig.Results().Len()
+		// a function that returns one value other than an error is a query (a search, a predicate,
+		// a getter): it stays a call and the fact engine uses its postcondition; early mode is for
+		// procedures (no result, an error, or several results)
+		if nres == 1 && sig.Results().At(0).Type().String() != "error" {
+			return nil, false
+		}
 		okRets := true
 		ast.Inspect(body, func(m ast.Node) bool {
 			switch t := m.(type) {
